@@ -294,7 +294,10 @@ def call_by_contract(it, c, fn, bound):
                 for _n, efn in c.exc_ensures:
                     if 'frame' in signature(efn).parameters:
                         continue
-                    ctx.assume(it.truth(eval_clause(it, efn, ns_e)))
+                    try:
+                        ctx.assume(it.truth(eval_clause(it, efn, ns_e)))
+                    except V.PendingRead:
+                        pass
                 # the callee also proves its class invariant on exceptional exits (excinv)
                 if cc is not None and cc.inv is not None and c.check_inv and not c.is_init and \
                         'self' in ns:
@@ -329,7 +332,12 @@ def call_by_contract(it, c, fn, bound):
         for name, efn in c.ensures:
             if 'frame' in signature(efn).parameters:
                 continue          # speaks about the callee's locals: not visible to a caller
-            ctx.assume(it.truth(eval_clause(it, efn, ns)))
+            try:
+                ctx.assume(it.truth(eval_clause(it, efn, ns)))
+            except V.PendingRead:
+                # the clause inspects a trace the callee does not define by an equation: a caller
+                # learns nothing from it (assuming less is sound)
+                it.used.add(f'<skipped-at-call> {c.qualname}: {name}')
     finally:
         it.assuming -= 1
     if cc is not None and cc.inv is not None and 'self' in ns and c.check_inv:
